@@ -91,8 +91,8 @@ theorem C18_counterexample_complete_missing_part :
 
 (1d0f501 put_object / create_multipart_upload require the bucket; b01fec8 put_object without metadata removes the old
 metadata file; ca1e912 copy onto itself keeps the object; d6f1a3c head_object tells a missing key from a missing bucket;
-dbc4627 delete_bucket refuses a bucket that holds objects; fe75a0e delete_object of a key that does not exist succeeds; 391a940 (and fe75a0e for delete_object) an object in a bucket
-that does not exist is `NoSuchBucket`, not `NoSuchKey`; 902249e delete_objects on a bucket that does not exist is `NoSuchBucket`; 3751248 head_object returns the ETag;
+24de822 delete_bucket refuses a bucket that holds objects; 20fee59 delete_object of a key that does not exist succeeds; cc244fc (and 20fee59 for delete_object) an object in a bucket
+that does not exist is `NoSuchBucket`, not `NoSuchKey`; 0f31b61 delete_objects on a bucket that does not exist is `NoSuchBucket`; 42c2f29 head_object returns the ETag;
 b89afe2 ranged reads: covered for all ranges by `C18_get_refines_partial` and `C18_range_check`, the kernel cannot
 evaluate the decimal formatter of `Content-Range`) -/
 
